@@ -142,6 +142,10 @@ def input_flags(case):
             fl.append("rate<1e-100")
         elif r > 1e100:
             fl.append("rate>1e100")
+        elif 0 < r < 1e-10:
+            fl.append("rate<1e-10")
+        elif r > 1e10:
+            fl.append("rate>1e10")
     ms = _num(p.get("max_shape"))
     if ms is not None and not (float(ms) > 1):
         fl.append("max_shape<=1")
